@@ -79,6 +79,23 @@ func valKey(v interface{}, field string) (string, bool) {
 	return "", false
 }
 
+// emptyKeyMarker in a key field makes the index key function return an empty,
+// non-nil key: the value IS indexed (under the empty key), unlike a nil key.
+const emptyKeyMarker = "<empty>"
+
+// idxKeyOf returns the index key of a value for a key field and whether the
+// value is indexed at all.
+func idxKeyOf(v interface{}, field string) (string, bool) {
+	raw, ok := valKey(v, field)
+	if !ok {
+		return "", false
+	}
+	if raw == emptyKeyMarker {
+		return "", true
+	}
+	return raw, true
+}
+
 func valVeto(v interface{}) bool {
 	switch t := v.(type) {
 	case tItem:
